@@ -70,7 +70,11 @@ func (s Set[T]) Has(val T) bool {
 func (s Set[T]) Copy() Set[T] {
 	ret := NewSet(s.rules)
 	for k, v := range s.vals {
-		ret.vals[k] = v
+		// Add appends to a bucket in place, so the copy must not share any
+		// spare capacity of the bucket's backing array with the original
+		// (or with other copies): limiting the capacity forces the first
+		// append on either side of the copy to allocate a new array.
+		ret.vals[k] = v[:len(v):len(v)]
 	}
 	return ret
 }
